@@ -1,4 +1,4 @@
-From BB Require Import Base Ref TapeModel InstrsModel MachineModel ReasonModel SegmentModel.
+From BB Require Import Base Ref TapeModel InstrsModel MachineModel ReasonModel SegmentModel CpsModel.
 From BB.Properties Require Import C15.
 
 Check C15_for_upto_mono : forall (St Rs : Type) (body : St -> St + Rs) n m s r,
@@ -15,3 +15,5 @@ Check C15_seg_mono : forall prog params goal s s',
   2 <= s -> s <= s' ->
   sg_segment_cant_reach prog params s goal <> Ok SgrSegmentLimit ->
   sg_segment_cant_reach prog params s' goal = sg_segment_cant_reach prog params s goal.
+Check C15_cps_mono : forall order prog goal r r',
+  cps_run order prog r goal = Ok true -> r <= r' -> cps_run order prog r' goal = Ok true.
